@@ -8,6 +8,7 @@ import (
 	"context"
 	"github.com/golang/protobuf/proto"
 	"io"
+	"sync/atomic"
 
 	"github.com/onosproject/onos-lib-go/pkg/errors"
 	baseClient "github.com/openconfig/gnmi/client"
@@ -32,6 +33,9 @@ type Client interface {
 // client gnmi client
 type client struct {
 	client *gclient.Client
+	// subscribed is set once a subscription stream was opened on the backing client, which
+	// writes polls to that stream without checking that it exists
+	subscribed atomic.Bool
 }
 
 // Subscribe calls gNMI subscription bacc
@@ -42,12 +46,16 @@ func (c *client) Subscribe(ctx context.Context, q baseClient.Query) error {
 		// No stream was opened: there is nothing for the response monitor to read
 		return errors.FromGRPC(err)
 	}
+	c.subscribed.Store(true)
 	go c.run(ctx)
 	return nil
 }
 
 // Poll issues a poll request using the backing client
 func (c *client) Poll() error {
+	if !c.subscribed.Load() {
+		return errors.NewUnavailable("no subscription is open to the target")
+	}
 	return c.client.Poll()
 }
 
